@@ -10,12 +10,16 @@ The model takes four Booleans describing the source as it is *now* (`Demux.SrcCf
   branches; false = first statement of the function (C07-full-frame), true = fixes/dvb-demux-full-frame.diff
 * demuxTsCompletesInHeader - `demux_ts_packet`: `ts_pes_packet_complete ()` is also called at the end of the header
   evaluation; false = completion step inline in the copy loop only (F30), true = fixes/dvb-demux-ts-first-packet.diff
-Any other shape of one of these statements is reported as a translator failure, so that the model is looked at again."""
+Any other shape of one of these statements is reported as a translator failure, so that the model is looked at again.
+Two further facts the model relies on without following another shape (Props/C07Ts.lean states them as theorems, so a
+change breaks the proof build): demuxTsErrorExitDead (`bad_ts_packet_return` only reached from `if (0)` blocks) and
+demuxTsContinuityMinus1OrB3Plus1 (the only values stored in `dx->ts_continuity`)."""
 import os, re, sys
 
 REPO = os.environ.get("ZVBI_REPO", "/repo")
 HERE = os.path.dirname(os.path.abspath(__file__))
 OUT = os.path.join(HERE, "..", "lean", "ZvbiModel", "Generated", "DemuxCfg.lean")
+OUT2 = os.path.join(HERE, "..", "lean", "ZvbiModel", "Generated", "DemuxTsShape.lean")
 
 
 def strip_comments(s):
@@ -101,6 +105,17 @@ def main():
     else:
         raise SystemExit("gen_demux: the 'PES packet complete' step of demux_ts_packet has an unknown shape; "
                          "re-read the code and update lean/ZvbiModel/Demux/Ts.lean tsPesDone / tsCopy")
+    # demux_ts_packet: the error exit `bad_ts_packet_return` (a third copy of the ts_buffer bookkeeping) is reached
+    # only from `if (0) { err = VBI_ERR_...; goto bad_ts_packet_return; }` - dead code the model leaves out
+    n_goto = body4.count("goto bad_ts_packet_return;")
+    n_dead = len(re.findall(r"if \(0\) \{ err = VBI_ERR_\w+; goto bad_ts_packet_return; \} else \{", body4))
+    if "bad_ts_packet_return:" not in body4 and n_goto == 0:
+        flag5 = "true"
+    else:
+        flag5 = "true" if (n_goto > 0 and n_goto == n_dead) else "false"
+    # dx->ts_continuity holds -1 (unknown) or b3 + 1 with b3 a uint8_t: never 0
+    stores = set(re.sub(r"\s+", " ", x).strip() for x in re.findall(r"dx->ts_continuity\s*=(?!=)([^;]*);", src))
+    flag6 = "true" if (stores == {"-1", "b3 + 1"} and "uint8_t b1, b3;" in body4 and "b3 = p[3];" in body4) else "false"
     text = ("-- generated by translate/gen_demux.py from src/dvb_demux.c; do not edit\n"
             "namespace Zvbi.Gen\n\n"
             "/-- `demux_pes_packet_frame`: with `callback == NULL` a frame without lines is skipped\n"
@@ -115,10 +130,20 @@ def main():
             "/-- `demux_ts_packet`: `ts_pes_packet_complete ()` is also called at the end of the header evaluation of a\n"
             "TS packet (fix dvb-demux-ts-first-packet present); false while the step is inline in the copy loop only -/\n"
             "def demuxTsCompletesInHeader : Bool := %s\n\nend Zvbi.Gen\n" % (flag, flag2, flag3, flag4))
+    text2 = ("-- generated by translate/gen_demux.py from src/dvb_demux.c; do not edit\n"
+             "namespace Zvbi.Gen\n\n"
+             "/-- `demux_ts_packet`: every `goto bad_ts_packet_return` stands in an `if (0) { ... }` block, so the error exit\n"
+             "with its own copy of the `ts_buffer` bookkeeping is unreachable (the model has no such path) -/\n"
+             "def demuxTsErrorExitDead : Bool := %s\n\n"
+             "/-- `dx->ts_continuity` is assigned `-1` and `b3 + 1` (`uint8_t b3 = p[3]`) and nothing else -/\n"
+             "def demuxTsContinuityMinus1OrB3Plus1 : Bool := %s\n\nend Zvbi.Gen\n" % (flag5, flag6))
+    if not os.path.exists(OUT2) or open(OUT2).read() != text2:
+        open(OUT2, "w").write(text2)
     if not os.path.exists(OUT) or open(OUT).read() != text:
         open(OUT, "w").write(text)
     print("gen_demux: demuxCorSkipsEmptyFrame = %s demuxPesDiscardsOnError = %s demuxLateOverflowTest = %s "
-          "demuxTsCompletesInHeader = %s" % (flag, flag2, flag3, flag4))
+          "demuxTsCompletesInHeader = %s demuxTsErrorExitDead = %s demuxTsContinuityMinus1OrB3Plus1 = %s"
+          % (flag, flag2, flag3, flag4, flag5, flag6))
 
 
 if __name__ == "__main__":
